@@ -30,12 +30,12 @@ def main():
     json.dump(out, sys.stdout)
 
 
-def run_threads(specs, seed, gap=40, concat=None, timeout=180):
+def run_threads(specs, seed, gap=40, concat=None, timeout=900):
     """the specs decoded concurrently in OS threads of a fresh interpreter under a seeded line-level schedule (sim/threads.py)"""
     return run_fresh({"specs": specs, "threads": seed, "gap": gap, "concat": concat}, timeout=timeout)
 
 
-def run_fresh(specs, timeout=120, optimize=False, env_extra=None):
+def run_fresh(specs, timeout=600, optimize=False, env_extra=None):
     """-> list of [items, outcome] as decoded by a fresh interpreter (optimize: started with -O, i.e. asserts stripped -
     PYTHONOPTIMIZE is a common production setting)"""
     import os
